@@ -10,7 +10,9 @@ Init == tid \in 1..Len(Traces) /\ l = 1 /\ st = [data |-> <<>>, pos |-> 0]
 Step == /\ l >= 1 /\ l <= Len(Traces[tid].ev)
         /\ LET ev == Traces[tid].ev[l]
                cand == Outcomes(st, ev.op)
-               ms == {o \in cand : o.r = ev.r /\ Obs(o.s) = ev.obs} IN
+               (* "quiet" events were recorded without the intrusive reads (getvalue and len reposition the stream *)
+               (* and reset the decoder): only tell is compared, so consecutive calls act on live read-ahead state *)
+               ms == {o \in cand : o.r = ev.r /\ (IF ev.quiet THEN Obs(o.s).tell = ev.obs.tell ELSE Obs(o.s) = ev.obs)} IN
            IF ms # {} THEN \E o \in ms : st' = o.s /\ l' = l + 1 /\ tid' = tid
            ELSE /\ PrintT(<<"REJECT", ToJson([tid |-> tid, l |-> l, st |-> st, exp |-> {[r |-> o.r, obs |-> Obs(o.s)] : o \in cand}])>>)
                 /\ l' = 0 /\ UNCHANGED <<tid, st>>
